@@ -4,12 +4,14 @@ import (
 	"fmt"
 	"os"
 	"runtime"
+	"strings"
 	"sync"
 	"time"
 
 	dbm "github.com/cometbft/cometbft-db"
 
 	"verif/engine/report"
+	"verif/engine/world"
 )
 
 type histCase struct {
@@ -131,6 +133,29 @@ func c09Shard(t Tier, shard, n int) (run *report.Run) {
 		c := &histCase{blocks: blocks, name: "genesis=" + gv + " " + histName(e.mixedOps(), blocks), hist: h, obsA: obs}
 		for k := 0; k < 5; k++ {
 			cases = append(cases, c)
+		}
+	}
+	// genesis files that a correct node refuses to start from (one malformed entry among well-formed ones): every replica
+	// must reach the same verdict - all refuse, or all start with the same state; 8 independent attempts each
+	if shard == 1%n {
+		for _, gv := range sortedKeys(refusedGenesis) {
+			seen := map[string]int{}
+			for k := 0; k < 8; k++ {
+				var w *world.World
+				p := guard(func() {
+					w = world.New(world.Options{Accounts: e.accounts(), Mutate: refusedGenesis[gv], ExtraCoins: twinExtraCoins})
+				})
+				if p != "" {
+					seen["refused"]++
+				} else {
+					seen["started:"+committedStateHash(w)+":"+strings.Join(e.runQueries(w, 0), "|")]++
+				}
+			}
+			if len(seen) > 1 {
+				run.Add(report.Viol{Kind: "twin-divergence", Sig: "twin-divergence:genesis=" + gv + ":start-up verdict",
+					Msg:    fmt.Sprintf("genesis %s: 8 independently constructed nodes reached %d different outcomes (refused %d times, %d distinct started states)", gv, len(seen), seen["refused"], len(seen)-map[bool]int{true: 1, false: 0}[seen["refused"] > 0]),
+					Replay: map[string]any{"check": "C09", "genesis": gv}})
+			}
 		}
 	}
 	if len(cases) == 0 {
